@@ -484,10 +484,22 @@ func runK7flush(r *rng, n int) {
 		if got[other] == 25 {
 			oth = 1
 		}
-		releasedAt := len(got)
 		close(g.release)
 		dup := 0
-		for len(got) < releasedAt+2+map[bool]int{true: 1, false: 0}[chained] {
+		// still to come: the victim's reply, its Rflush, and the chained Rflush unless it came already
+		missingNow := func() int {
+			k := 0
+			for _, tg := range []uint16{victim, f1} {
+				if _, ok := got[tg]; !ok {
+					k++
+				}
+			}
+			if _, ok := got[f2]; chained && !ok {
+				k++
+			}
+			return k
+		}
+		for missingNow() > 0 {
 			tag, rt, _, ok := s.recvReply(0, 5*time.Second)
 			if !ok {
 				break
